@@ -34,6 +34,7 @@ pub fn c07_foreign_history(ctx: &Ctx, out: &mut RunOut) -> Result<(), Violation>
         let mut src = SimSource::new(ctx, bytes, draw_benign_source(ctx));
         let d = guarded("load_from", || sim::load_from(&mut src))?
             .map_err(|e| Violation::new("load-failed", format!("prefix with {} of {} revisions ({}) failed to load: {e}", i + 1, n, describe(&h))))?;
+        ctx.event("c07-loaded", i as u64, sim::full_digest(&d));
         compare_loaded(&h, i, &sim::from_doc(&d), &format!("after revision {i} of {} ({})", n - 1, describe(&h)))?;
         let d2 = guarded("load_mem(seq)", || seq::load_mem(bytes))?.map_err(|e| Violation::new("load-failed", format!("sequential build, prefix {i}: {e}")))?;
         compare_loaded(&h, i, &seq::from_doc(&d2), &format!("sequential reader after revision {i} ({})", describe(&h)))?;
